@@ -439,6 +439,8 @@ def exec_oracle(name, obs):
     if not obs.startswith('applied'):
         return f'calling the origin placeholder: {obs}', None
     kv = dict(p.split('=', 1) for p in obs.split()[1:] if '=' in p)
+    if kv.get('inner') not in (None, 'ok'):
+        return f'the function patched for a generic instantiation is not the target of the wrapper\'s CALL ({kv["inner"]}): {obs}', None
     if name == 'Generic' and kv['wrong'] == kv['calls'] and kv['cbzero'] == '0':
         return ('origin placeholder of a generic function: the callback and the placeholder are entered with the dictionary argument of the '
                 f'shape function in place of the first argument: {obs}', 'F30-generic-origin-abi')
